@@ -656,6 +656,113 @@ func snmpGet(r *Rng) ([]byte, []string) {
 	return append([]byte{0x30, byte(len(body))}, body...), []string{"snmp:" + hxs(typ, community)}
 }
 
+// berLenAny: definite BER length, short or long form
+func berLenAny(n int) []byte {
+	switch {
+	case n < 128:
+		return []byte{byte(n)}
+	case n < 256:
+		return []byte{0x81, byte(n)}
+	default:
+		return []byte{0x82, byte(n >> 8), byte(n)}
+	}
+}
+
+func tlvAny(tag byte, v []byte) []byte { return append(append([]byte{tag}, berLenAny(len(v))...), v...) }
+
+// snmpMsg: an SNMP message of the given version with a PDU of the given tag, community and number of variable bindings
+func snmpMsg(r *Rng, version byte, tag byte, community string, nvb int) []byte {
+	var vbl []byte
+	for i := 0; i < nvb; i++ {
+		oid := []byte{0x2b, 6, 1, 2, 1, byte(1 + i%10), byte(r.Range(1, 7)), 0}
+		vbl = append(vbl, tlvAny(0x30, append(tlvAny(0x06, oid), 0x05, 0x00))...)
+	}
+	pdu := []byte{0x02, 0x04, byte(r.Next()) & 0x7f, byte(r.Next()), byte(r.Next()), byte(r.Next()), 0x02, 0x01, 0x00, 0x02, 0x01, 0x00}
+	pdu = append(pdu, tlvAny(0x30, vbl)...)
+	body := append([]byte{0x02, 0x01, version}, tlvAny(0x04, []byte(community))...)
+	body = append(body, tlvAny(tag, pdu)...)
+	return tlvAny(0x30, body)
+}
+
+// snmpAll: versions, PDU kinds, community lengths and binding counts on both sides of the 128-byte message size
+// (where the BER length of the message changes form)
+func snmpAll(r *Rng) [][2]interface{} {
+	types := map[byte]string{0xa0: "get-request", 0xa1: "get-next-request", 0xa3: "set-request"}
+	var out [][2]interface{}
+	add := func(version, tag byte, community string, nvb int) {
+		b := snmpMsg(r, version, tag, community, nvb)
+		var ex []string
+		if version != 0 {
+			ex = []string{"snmp:" + hxs("unknown-packet", community)}
+		} else if t, ok := types[tag]; ok {
+			ex = []string{"snmp:" + hxs(t, community)}
+		}
+		out = append(out, [2]interface{}{b, ex})
+	}
+	for _, tag := range []byte{0xa0, 0xa1, 0xa3, 0xa5} {
+		for _, nvb := range []int{0, 1, 2, 5, 6, 7, 12, 30} {
+			add(0, tag, "public", nvb)
+		}
+	}
+	for _, cl := range []int{0, 1, 60, 80, 90, 100, 120, 127, 128, 200} {
+		add(0, 0xa0, strings.Repeat("c", cl), 1)
+	}
+	add(1, 0xa0, "public", 1)
+	add(1, 0xa5, "private", 3)
+	add(3, 0xa0, "x", 1)
+	return out
+}
+
+// tftpAll: requests with empty or long names and modes, options after the mode, other opcodes, truncated forms (the Lean
+// decoder decides what they mean)
+func tftpAll(r *Rng) [][]byte {
+	var out [][]byte
+	mk := func(op byte, parts ...string) []byte {
+		b := []byte{0, op}
+		for _, p := range parts {
+			b = append(append(b, p...), 0)
+		}
+		return b
+	}
+	for _, op := range []byte{1, 2} {
+		out = append(out, mk(op, "a", "octet"), mk(op, "", "octet"), mk(op, "a", ""), mk(op, "", ""), mk(op, strings.Repeat("n", 500), "netascii"),
+			mk(op, "file", "octet", "blksize", "1428"), mk(op, "file", "octet", "tsize", "0", "timeout", "5"),
+			[]byte{0, op}, append([]byte{0, op}, "noterminator"...), append(mk(op, "name"), "octet"...), []byte{1, op, 'a', 0, 'o', 0})
+	}
+	out = append(out, []byte{0, 3, 0, 1, 'd'}, []byte{0, 4, 0, 1}, []byte{0, 5, 0, 1, 'e', 0}, []byte{0, 6, 'x', 0, '1', 0}, []byte{0, 0}, []byte{0}, []byte{0, 9, 'a', 0, 'b', 0})
+	return out
+}
+
+// dnsAll: well-formed queries of several shapes (expected: one event with the id and opcode) and odd ones (no expectation)
+func dnsAll(r *Rng) [][2]interface{} {
+	var out [][2]interface{}
+	name := func(labels ...string) []byte {
+		var b []byte
+		for _, l := range labels {
+			b = append(append(b, byte(len(l))), l...)
+		}
+		return append(b, 0)
+	}
+	q := func(id int, flags uint16, qd int, body []byte) []byte {
+		return append([]byte{byte(id >> 8), byte(id), byte(flags >> 8), byte(flags), byte(qd >> 8), byte(qd), 0, 0, 0, 0, 0, 0}, body...)
+	}
+	quest := func(n []byte, t byte) []byte { return append(append([]byte(nil), n...), 0, t, 0, 1) }
+	ex := func(id, op int) []string { return []string{"dns:" + hxs(fmt.Sprint(id), fmt.Sprint(op))} }
+	out = append(out,
+		[2]interface{}{q(1, 0x0100, 1, quest(name("example", "com"), 1)), ex(1, 0)},
+		[2]interface{}{q(0, 0x0100, 1, quest(name(), 2)), ex(0, 0)},                    // the root
+		[2]interface{}{q(65535, 0x0000, 1, quest(name("a"), 255)), ex(65535, 0)},       // no recursion, ANY
+		[2]interface{}{q(7, 0x0100, 2, append(quest(name("a", "b"), 1), quest(name("c"), 28)...)), ex(7, 0)},
+		[2]interface{}{q(8, 0x0100, 1, quest(name(strings.Repeat("l", 63), strings.Repeat("m", 63), strings.Repeat("n", 63), strings.Repeat("o", 59)), 16)), ex(8, 0)},
+		[2]interface{}{q(9, 0x0120, 1, quest(name("ad", "bit"), 1)), ex(9, 0)},
+	)
+	for _, b := range [][]byte{q(10, 0x0100, 0, nil), q(11, 0x1000, 1, quest(name("status"), 1)), q(12, 0x8180, 1, quest(name("resp"), 1)), q(13, 0x0100, 1, []byte{0xc0, 0x0c, 0, 1, 0, 1}),
+		q(14, 0x0100, 1, []byte{5, 'a', 'b'}), q(15, 0x0100, 3, quest(name("x"), 1)), {0, 1, 2}, q(16, 0x2800, 1, quest(name("upd"), 6))} {
+		out = append(out, [2]interface{}{b, []string(nil)})
+	}
+	return out
+}
+
 // csAll: every query type, bare (the 5-byte form: header and type only) and with argument bytes, under both headers;
 // an unknown type and datagrams shorter than the header
 func csAll(r *Rng) [][2]interface{} {
@@ -815,6 +922,17 @@ func genC04(tier string, seed uint64) {
 	for _, c := range csAll(r) {
 		ex, _ := c[1].([]string)
 		runDgram("counterstrike", c[0].([]byte), ex, true)
+	}
+	for _, c := range snmpAll(r) {
+		ex, _ := c[1].([]string)
+		runDgram("snmp", c[0].([]byte), ex, true)
+	}
+	for _, b := range tftpAll(r) {
+		runDgram("tftp", b, nil, false)
+	}
+	for _, c := range dnsAll(r) {
+		ex, have := c[1].([]string)
+		runDgram("dns", c[0].([]byte), ex, have && ex != nil)
 	}
 	// datagrams: each decoded and reported on its own, through the dispatcher
 	for i := 0; i < nDial*6; i++ {
